@@ -314,6 +314,7 @@ class Ctx:
                         e += 1
                 r["bad_run"] = lines[s:e]
                 r["bad_line_in_run"] = line - 1 - s
+                r["bad_orig_index"] = offset + s
                 rest = lines[e:]
                 if not rest:
                     break
@@ -328,6 +329,7 @@ class Ctx:
         with cf.ThreadPoolExecutor(max_workers=jobs) as ex:
             for path, res in ex.map(one, files):
                 raw = {}
+                raw_list = []
                 rawp = path + ".raw"
                 if os.path.exists(rawp):
                     with open(rawp) as f:
@@ -335,6 +337,7 @@ class Ctx:
                             try:
                                 o = json.loads(l)
                                 raw[o["label"]] = o["case"]
+                                raw_list.append(o)
                             except Exception:
                                 pass
                 for r, cur, offset in res:
@@ -355,6 +358,10 @@ class Ctx:
                             label = json.loads(bad[0]).get("label")
                         except Exception:
                             pass
+                    if label is None and run_start is None and r.get("bad_orig_index") is not None \
+                            and r["bad_orig_index"] < len(raw_list):
+                        # one event per run: the sidecar lines are in event order
+                        label = raw_list[r["bad_orig_index"]]["label"]
                     what = (f"invariant {r['invariant']} violated" if r["invariant"]
                             else "trace rejected by the specification")
                     info = {"kind": "trace", "spec": f"{tla}/{cfg}", "label": label,
@@ -389,8 +396,9 @@ class Ctx:
               "coverage": cov, "assumptions": self.assumptions, "wall_s": round(wall, 1),
               "violations": len(self.violations)}
         os.makedirs(EVID, exist_ok=True)
-        with open(os.path.join(EVID, f"{self.prop}.json"), "w") as f:
-            json.dump(ev, f, indent=1)
+        if self.prop.startswith("C"):
+            with open(os.path.join(EVID, f"{self.prop}.json"), "w") as f:
+                json.dump(ev, f, indent=1)
         log(f"{self.prop} {self.tier}: {len(self.violations)} violation(s), "
             f"{cov['states']} states, {cov['traces_validated_against_impl']} events validated, {wall:.0f}s")
         if self.tier == "quick" or not self.violations:
